@@ -184,6 +184,19 @@ def r15(ctx, lib):
               'an ancestor of the target is examined twice - the first stat says it is not there, the second one says it exists - and the disagreement is read as a dangling link: the directories '
               'below DIR are being created at that very moment by the threads that execute the moves of other groups, so a perfectly good fresh directory is reported as "not a directory", the command is '
               'dropped and the file is not moved although the dry run announced it (about one run in four with 300 groups into a fresh DIR)')
+    # "is a directory" is not yet "the file can be created there": the first existing ancestor is also asked whether it can be written to (and searched)
+    acc = [c for c in b.calls(r'nix::unistd::(access|faccessat|eaccess)$|^libc::(access|faccessat|euidaccess)$')]
+    acc_ok = False
+    for c in acc:
+        t_ = result_tests(b, c)
+        for sw_bb, tt_ in t_.items():
+            rv_e = return_variants_from(b, tt_['err'])
+            if 'Err' in rv_e and 'Ok' not in rv_e:
+                acc_ok = True
+    ctx.check(acc_ok, 'C18.R5', P + '|ancestor-writable', (acc[0].where() if acc else b.where(line)), 'the first existing ancestor of the target must be writable and searchable (access W_OK|X_OK), otherwise the move is refused',
+              'check_can_rename finds the first existing ancestor of the target and is satisfied when it is a directory: whether anything can be created in it is not asked, so for a target below a '
+              'directory without write permission (or on a read-only mount) the command passes the precondition, `move --dry-run` prints it and counts the file, and the real run fails in mkdirs '
+              '("Permission denied"): the summaries differ for a reason that was visible beforehand')
     # a positive test returns Err; both outcomes present
     rv = return_variants_from(b, 0)
     ctx.check('Err' in rv and 'Ok' in rv, 'C18.R1', P + '|returns-err-when-exists', b.where(line), 'returns Err on one side of the test and Ok on the other', 'check_can_rename returns %s' % sorted(rv))
